@@ -37,10 +37,17 @@ class DatasetAxes(Axes):
             dima.axes[oldname] = list.__getitem__(self, pos)
 
     def __deepcopy__(self, memo):
-        ' deepcopy interface otherwise fails '
-        new = type(self)(self._ds)
-        for ax in self:
-            list.append(new, copy.deepcopy(ax))
+        """ a copy of the axes alone is a plain Axes: it no longer belongs to
+        the Dataset, and replacing one of its axes must not be propagated to
+        the variables. Copied along with its Dataset, it belongs to the copy.
+        """
+        axes = [copy.deepcopy(ax, memo) for ax in self]
+        ds = memo.get(id(self._ds))
+        if ds is None:
+            return Axes(axes)
+        new = type(self)(ds)
+        for ax in axes:
+            list.append(new, ax)
         return new
 
 
